@@ -95,6 +95,8 @@ def decide(pid, tier, seed, prop, replay, t0, ck):
                 account(ck.run_cases(corpus), "corpus")
             for camp, nq, nt in prop["campaigns"]:
                 n = nq if tier == "quick" else nt
+                if n <= 0:
+                    continue
                 seeds = [seed] if tier == "quick" else [seed * 4 + i for i in range(4)]
                 for sd in seeds:
                     cases = ck.run_campaign(camp, sd, max(1, n // len(seeds)))
@@ -108,6 +110,8 @@ def decide(pid, tier, seed, prop, replay, t0, ck):
             if (broken or diffs) and not rejected:
                 for camp, nq, nt in prop["campaigns"]:
                     n = (nq if tier == "quick" else nt) * 3
+                    if n <= 0:
+                        continue
                     cases = ck.run_campaign(camp, seed + 7919, n)
                     rows = ck.run_cases(cases)
                     post = prop.get("group_oracle")
